@@ -51,6 +51,8 @@ META = {
         "(a stub asserts they are never reached)",
         "KF_SYNC_DEAD_FRAME (known finding, see findings/sync_dead_frame.md): the early return of the synchronous caller is "
         "not explored while the define is in force",
+        "KF_DONE_CB_FOREIGN_THREAD (known finding, findings/done_cb_foreign_thread.md): 'completion runs on the origin thread' is "
+        "not asserted for the direct-call fallback taken when the write of the completion message was refused",
     ],
     "harness_functions": ["harness", "cb_user", "cb_done", "worker_step", "env_move", "thr_tpt", "pending_total", "v_rec_get",
                           "tpt_msg_one_by_one_send_next__int (stub in modes 0-2)"],
@@ -84,8 +86,8 @@ def job(mode, nthr, caller, flags, wfail=0, down=0, srcnull=None, nstep=2, nsche
         defs.update(NSTEP=0, NSCHED=0)
     if mode == 1:
         defs["NSTEP"] = 0
-        if not NO_KF:
-            defs["KF_SYNC_DEAD_FRAME"] = None
+        pass   # KF_SYNC_DEAD_FRAME: repaired in /repo (known_findings.json: fixed)
+    # KF_DONE_CB_FOREIGN_THREAD: recorded, unrepaired known finding; bin/check injects the define from known_findings.json
     flags_cbmc = ["--no-malloc-may-fail"]
     if HOOK:
         defs["TPT_MSG_COUNT_TO_READ"] = 3
@@ -145,6 +147,8 @@ def jobs(tier):
     add(3, 2, 0, 0, down=2)
     add(3, 3, 1, 0)
     add(3, 3, 0, 2, wfail=2)
+    add(2, 2, 0, 0, wfail=4)             # the completion message itself is refused (known finding: done_cb on a foreign thread)
+    add(3, 3, 0, 1, wfail=4)
     if tier == "quick":
         return out
     # --- thorough: all masks / flag sets for 2 threads, more 3-thread shapes
@@ -152,7 +156,7 @@ def jobs(tier):
         skips = (0,) if caller < 0 else (0, 1, 2, 3)
         for fl in skips:
             for extra in (0, 8, 16, 24):
-                for wfail in range(4):
+                for wfail in range(8):
                     for down in ((0, 1, 2, 3) if caller < 0 else ((0, 2) if caller == 0 else (0, 1))):
                         if extra & 8 and not down:
                             continue
@@ -161,9 +165,11 @@ def jobs(tier):
                         for mode in (0, 1, 2, 3):
                             if mode >= 2 and caller < 0 and (fl or extra or wfail or down):
                                 continue
+                            if wfail >= 4 and (mode < 2 or extra or down):
+                                continue    # 3rd write = the completion message: only exists in the cbsend modes
                             for sn in ((0, 1) if caller >= 0 and not (extra or down) else (None,)):
                                 add(mode, 2, caller, fl | extra, wfail=wfail, down=down, srcnull=sn)
-                        if caller < 0:
+                        if caller < 0 and wfail < 4:
                             add(1, 2, caller, fl | extra | 4, wfail=wfail, down=down)
     for mode in (0, 1, 2, 3):
         for caller in ((-1, 0, 2) if mode < 2 else (0, 2)):
